@@ -16,12 +16,15 @@ from lib import driver
 from lib.rec import Rec
 
 LEVEL = "exploration"
-RULE = ("Alphabet of ~34 write operations over 10 Sids taken from the live configuration (a file, its sibling differing only by the extension, "
-        "the nearest two ancestor folders that have a path, a Sid whose type has no path, an untyped Sid) x 2 attribute keys, every written "
-        "value unique '<history>.<step>'. Quick: every sequence of length <= 3 (exhaustive) + random sequences up to 40; thorough: length <= 4 "
-        "+ more random. After each operation the return value / exception and ALL observables of ALL Sids are compared with the sequential "
-        "model. Two alphabets (two basetypes) are used, each enumerated by half of the shards. Quick: every sequence of length <= 2 + every 7th of "
-        "length 3; thorough: every sequence of length <= 3 + every 12th of length 4. Non-trivial = distinct operation sequence containing at least one successful write.")
+RULE = ('Alphabet of ~34 write operations over 10 Sids taken from the live configuration (a file, its sibling differing only by the extension, '
+        'the nearest two ancestor folders that have a path, a Sid whose type has no path, an untyped Sid) x 2 attribute keys, every written '
+        "value unique '<history>.<step>'. Quick: every sequence of length <= 3 (exhaustive) + random sequences up to 40; thorough: length <= 4 + "
+        'more random. After each operation the return value / exception and ALL observables of ALL Sids are compared with the sequential model. '
+        'Values include non-ASCII text and a lone surrogate; roles include hidden names, a folder named like a sidecar, dotted siblings and two '
+        'long-named siblings (paths beyond 260 characters); every second fresh-process read runs in the C locale with UTF-8 mode off. Two '
+        'alphabets (two basetypes) are used, each enumerated by half of the shards. Quick: every sequence of length <= 2 + every 7th of length '
+        '3; thorough: every sequence of length <= 3 + every 12th of length 4. Non-trivial = distinct operation sequence containing at least one '
+        'successful write.')
 ASSUME = ["two entities whose paths differ only by the extension may share one data store or not (the statement excludes that pair): both the "
           "own overlay and the merged overlay are accepted for them", "get_data of a Sid without path may be {} or only its 'sid' entry",
           "tree reset between sequences is done by the harness (rmtree of the configured root)"]
